@@ -165,6 +165,7 @@ type ContractDB struct {
 	OwnsList   []*Owns
 	Funcs      map[string][]*FuncContract // several contracts per function are allowed when they serve different properties
 	FileErrs   map[string]error
+	Overlay    map[string][]byte // in-memory replacements of contract files (mutant corpus)
 	SpecFuncs  map[string]*SpecFunc
 	SpecTypes  map[string]*SpecType
 	Lemmas     []*Lemma
@@ -684,10 +685,14 @@ func stripLineComment(s string) string {
 	return s
 }
 
-func readDirectives(path string) ([]rawDirective, string, error) {
-	data, err := os.ReadFile(path)
-	if err != nil {
-		return nil, "", err
+func readDirectives(path string, overlay map[string][]byte) ([]rawDirective, string, error) {
+	data, ok := overlay[path]
+	if !ok {
+		var err error
+		data, err = os.ReadFile(path)
+		if err != nil {
+			return nil, "", err
+		}
 	}
 	var out []rawDirective
 	pkgName := ""
@@ -796,7 +801,7 @@ func expandFuncKey(name, pkg string) string {
 }
 
 func (db *ContractDB) ParseFile(path string, pkgPath string) error {
-	dirs, _, err := readDirectives(path)
+	dirs, _, err := readDirectives(path, db.Overlay)
 	if err != nil {
 		return err
 	}
